@@ -4,6 +4,26 @@ VERIF = os.path.dirname(os.path.dirname(os.path.abspath(__file__)))
 ALL = [f"C{n:02d}" for n in range(1, 21)]
 
 CLAIMED = {
+ "C03": dict(
+   text="Theorems (Coq): entry (i,j) of the compiled Jacobian on the constant, scaled and general paths is the value of the model gradient of expression i w.r.t. variable j (which C02 proves is the partial derivative) for any duplicate-free V containing the variables; all paths return what the general path returns; every per-node Jacobian-row shortcut (incl. products of overlapping slices) equals the general path entrywise; compile_gradient likewise; the vectorised power / elementwise-function closure bodies found in the source on this run compute the value of the model's derivative rule (re-proved over the generated tables), full and sparse, and the dispatch is complete. Tie: compute_jacobian's row trees and the chosen path (callable __name__) compared exactly; every array entry checked by interval enclosure.",
+   note="Trusted: Coq kernel; Reals/Coquelicot axioms; translator for the closure tables; Interval library; model Jacobian.v; identity of Variable objects modelled by name.",
+   technique="Coq proof (per-path soundness, generated-table obligations re-proved each run) + exact row-tree/path correspondence + interval-enclosure check", ref="6/C03"),
+ "C12": dict(
+   text="Theorems (Coq): evaluation under the valuation in force equals evaluation of the fresh model in which each Parameter is a Constant (under dom); the valuation in force after any history is the last value set; a closure is built without reading any parameter value and serves every later valuation; gradients under the valuation in force equal the fresh constant model's gradients at regular points; an expression mentioning a parameter is never classified polynomial, so neither LP data nor a constant Jacobian is taken from a parameter value. Tie: 3-step update histories; callables compiled before the updates (value, gradient, Jacobian, Hessian, SciPy seam callables), cached derivative trees and fresh compilations checked by interval enclosure under the current valuation; live-vs-fresh real solves.",
+   note="Trusted: Coq kernel; Reals axioms; Interval library; array-valued parameters not modelled; solver determinism for the search.",
+   technique="Coq proof (substitution lemma, algebraic gradient-substitution lemma, history fold) + interval-enclosure check of stale-vs-current observations", ref="6/C12"),
+ "C15": dict(
+   text="Theorems (Coq): the generic explicit-stack machine returns exactly the recursive fold for every tree (instances: gradient, compiler, degree; every switch threshold); left-deep, right-deep and balanced accumulations of + and * denote the same real function, left chains of - and / denote t1 - sum and t1 / prod; variable discovery, degree (+, -, *) and gradient values are shape-independent. Tie: accumulation chains n in {399,400,401,900} (and 5000/20000 for gradient, degree, variables) over 22 base-term kinds and four ops: value/gradient by interval enclosure of the model's chain rebuilt in Coq, degree/variables exact, shapes vs each other, both traversals forced, RecursionError watch. Known findings K6/K7 (product and quotient chains at n = 900).",
+   note="Trusted: Coq kernel; Reals axioms; Interval library. The Python call stack is outside the model: the no-RecursionError clause is measured. Right-deep accumulation is outside the property's quantifier.",
+   technique="Coq proof (stack-machine simulation; associativity folds) + interval/structural correspondence on deep chains", ref="6/C15"),
+ "C17": dict(
+   text="Theorems (Coq): symbolic Hessian entry (i,j) is the V_j-derivative of the V_i-derivative (is_derive, via the gradient theorem on gradient trees, and as the iterated partial derivative under local regularity); the compiled matrix is symmetric by construction; its upper-triangle entries are the symbolic entries' values for any duplicate-free V; the diagonal shortcuts over the generated closures equal the general path for full and sparse V; maximise hands over the negated Hessian. Schwarz's theorem is not proved (lower triangle = mirrored upper value). Tie: Hessian entry trees and path names compared exactly; all n^2 entries by interval enclosure; H == H.T bitwise.",
+   note="Trusted: Coq kernel; Reals/Coquelicot axioms; translator for the Hessian closure tables; Interval library.",
+   technique="Coq proof (gradient theorem applied twice, mirrored-matrix lemma, generated-table obligations) + exact tree correspondence + interval-enclosure check", ref="6/C17"),
+ "C19": dict(
+   text="Theorems (Coq): the sanitiser returns only finite values, leaves regular entries unchanged and maps NaN to 0 and +/-Inf to +/-1e16 (generated constant); every vectorised closure found in the source on this run is guarded (sanitised, or uniformly bounded over all inputs - proved for sin, cos, tanh, sign); every general derivative path returns through the sanitiser (generated fact). Tie: outputs at points on the singular sets and at large finite points: all entries finite, regular entries inside the enclosure, vectorised vs general path entrywise (special entries identical).",
+   note="Trusted: Coq kernel; Reals axioms for the boundedness lemma; translator (closure tables, sanitised flags); contract: NumPy's sin/cos/tanh/sign are bounded by 1 on finite inputs.",
+   technique="Coq proof over generated closure tables (re-proved each run) + finiteness / enclosure / path-agreement checks at singular points", ref="6/C19"),
  "C07": dict(
    text="Theorems (Coq): for every oracle answer the reported objective undoes the sign flip exactly (NLP) and adds the objective's constant (LP), so that with the oracle returning the value of what it was handed the report equals the objective at the returned point (via C01 and C05); the values hold exactly one entry per problem variable in problem order; vector and matrix handles retrieve each element's own entry with the handle's order and shape. Tie: scripted answers at both seams (objective, values, every handle incl. reversed/stepped/transposed/symmetric views) compared exactly with the model; real solves checked by interval enclosure of the objective at the reported values.",
    note="Trusted: Coq kernel; Reals axioms for the evalR statements; oracle contract (r.fun is the value at r.x of the function handed over); Interval library for the numeric channel; stubs.",
